@@ -6,11 +6,16 @@ Open Scope Z_scope.
 Definition term_of (t : Z) : term := if t =? 44 then TComma else TNewline.
 Definition is_sep (t : Z) : Prop := t = 44 \/ t = 10.
 
+(* the model reverses its accumulators with the linear [rev'] *)
+Lemma rev'_rev {A} (l : list A) : rev' l = rev l.
+Proof. unfold rev'. symmetry. apply rev_alt. Qed.
+Ltac fin := cbn; rewrite ?rev'_rev; reflexivity.
+
 Lemma quoted_escape f : forall acc t rest, is_sep t ->
   quoted (escape_quotes f ++ 34 :: t :: rest) acc false = Some (rev acc ++ f, term_of t, rest).
 Proof.
   induction f as [|c tl IH]; intros acc t rest Ht; cbn [escape_quotes app].
-  - rewrite app_nil_r. unfold term_of. destruct Ht as [-> | ->]; reflexivity.
+  - rewrite app_nil_r. unfold term_of. destruct Ht as [-> | ->]; fin.
   - destruct (c =? 34) eqn:E.
     + apply Z.eqb_eq in E. subst c. change (quoted ((34 :: 34 :: escape_quotes tl) ++ 34 :: t :: rest) acc false)
         with (quoted (escape_quotes tl ++ 34 :: t :: rest) (34 :: acc) false).
@@ -23,7 +28,7 @@ Lemma unquoted_plain f : forall acc t rest, is_sep t ->
   unquoted (f ++ t :: rest) acc = (rev acc ++ f, term_of t, rest).
 Proof.
   induction f as [|c tl IH]; intros acc t rest Ht Hs; cbn [app unquoted].
-  - rewrite app_nil_r. unfold term_of. destruct Ht as [-> | ->]; reflexivity.
+  - rewrite app_nil_r. unfold term_of. destruct Ht as [-> | ->]; fin.
   - cbn [existsb] in Hs. apply orb_false_iff in Hs as [Hc Hs]. unfold special_byte in Hc.
     repeat (apply orb_false_iff in Hc as [Hc ?]).
     rewrite Hc. assert (c =? 10 = false) as -> by assumption.
@@ -43,7 +48,7 @@ Proof.
   - cbn [app read_field]. rewrite Z.eqb_refl. rewrite <- app_assoc. cbn [app].
     rewrite quoted_escape by exact Ht. reflexivity.
   - pose proof (needs_quotes_false f N) as Hs. destruct f as [|c tl].
-    + cbn [app read_field]. destruct Ht as [-> | ->]; reflexivity.
+    + cbn [app read_field]. destruct Ht as [-> | ->]; fin.
     + cbn [app read_field]. assert (c =? 34 = false) as ->.
       { cbn [existsb] in Hs. apply orb_false_iff in Hs as [Hc _]. unfold special_byte in Hc.
         repeat (apply orb_false_iff in Hc as [Hc ?]). assumption. }
@@ -57,7 +62,7 @@ Proof.
   destruct fuel as [|fuel]; [cbn in Hf; lia|]. cbn [read_record].
   destruct tl as [|f2 tl2].
   - cbn [write_fields]. rewrite (read_write_field f 10 rest) by (right; reflexivity). cbn [term_of Z.eqb].
-    cbn [rev]. rewrite <- ?app_assoc. reflexivity.
+    rewrite rev'_rev. cbn [rev]. rewrite <- ?app_assoc. reflexivity.
   - change (write_fields (f :: f2 :: tl2)) with (write_field f ++ 44 :: write_fields (f2 :: tl2)).
     rewrite <- app_assoc. cbn [app]. rewrite (read_write_field f 44 _) by (left; reflexivity). cbn [term_of Z.eqb].
     rewrite IH by (try discriminate; cbn [length] in *; lia). cbn [rev]. rewrite <- app_assoc. reflexivity.
